@@ -246,6 +246,7 @@ func Run(s *simrt.Sim, a *harness.Args, r *harness.Result) {
 		s.PreemptNum, s.PreemptDen = 1, []int{2, 4, 8, 16}[s.T.Choose("knob", 4)]
 		s.TimeNum, s.TimeDen = 1, []int{8, 32}[s.T.Choose("knob", 2)]
 		s.TimeLadder = []time.Duration{time.Millisecond, time.Second, sc.Retry + time.Second}
+		s.TimeBudget = 6
 	default:
 		s.PreemptBudget = []int{0, 0, 1, 2}[s.T.Choose("knob", 4)]
 		s.PreemptNum, s.PreemptDen = 1, 8
@@ -296,7 +297,7 @@ func Run(s *simrt.Sim, a *harness.Args, r *harness.Result) {
 
 	hz := w.horizon()
 	phase := func(limit time.Duration) simrt.StepResult {
-		return s.Run(s.Now()+limit, func() bool { return w.crashed })
+		return s.Run(limit, func() bool { return w.crashed })
 	}
 	res := phase(hz)
 	// crash → restart loop
@@ -377,7 +378,7 @@ func (w *World) closeLive() {
 		q.Close()
 		w.closeDone[n] = true
 	})
-	res := w.s.Run(w.s.Now()+time.Hour, func() bool { return w.closeDone[n] })
+	res := w.s.Run(time.Hour, func() bool { return w.closeDone[n] })
 	if !w.closeDone[n] || res != simrt.Progress {
 		if w.prop == "C12" {
 			w.violateHang("final Close did not return; parked=" + strings.Join(w.s.ParkedKeys(), ","))
